@@ -43,6 +43,7 @@ type attOpts struct {
 	grouped   bool // all 0x1211 first, then the data of all files interleaved, then the 0x1212s
 	holes     int  // >0: one file of 2*holes+1 bytes sent byte by byte, every second byte withheld: that many gaps
 	sparse    int  // >0: one file announced with this size of which only a few packets ever arrive: very long gaps
+	again1211 bool // a file's 0x1211 may be repeated after its first data packet
 	second    bool // the files are announced by two alarms (0x1210): the second arrives while the first file is unfinished
 }
 
@@ -261,6 +262,11 @@ func (g *genCtx) genUpload(ci int, o attOpts) {
 				continue
 			}
 			emit(c)
+			if o.again1211 && i == 0 && len(chunks) > 1 && g.r.chance(20) {
+				// the terminal repeats the file's 0x1211 after its first data packet (acknowledged, nothing is lost)
+				ctl(0x1211, body1211(string(f.Name), f.Type, f.size()), fi+1, string(f.Name))
+				p.Faults = append(p.Faults, "input.repeated_1211")
+			}
 			if o.dups && g.r.chance(15) && i < len(chunks)-1 {
 				emit(c)
 				p.Faults = append(p.Faults, "pkt.dup")
